@@ -28,7 +28,12 @@ OtherSubs ==
                                           << ExprS(Assign(Var("acc"), "+=", Bin("+", Pp, Var("i")))) >>), Return(Var("acc")) >>),
        SubR("snest", S32, << Par("p", S32) >>, << Return(Bin("+", Call("smax", <<Pp, K(5)>>), CastE(S32, Call("clz32", <<CastE(U32, Pp)>>)))) >>),
        SubR("snarrow", U8, << Par("p", S64), Par("q", U16) >>, << Return(Bin("+", Pp, Qq)) >>),
-       SubR("spost", S32, << Par("p", S32) >>, << Decl(S32, "c", Pp), Decl(S32, "d", Postfix("++", Var("c"))), Return(Bin("+", Var("c"), Var("d"))) >>) >>
+       SubR("spost", S32, << Par("p", S32) >>, << Decl(S32, "c", Pp), Decl(S32, "d", Postfix("++", Var("c"))), Return(Bin("+", Var("c"), Var("d"))) >>),
+       \* nested calls whose callees have temporaries of their own and the SAME parameter names as the caller, while a
+       \* temporary of the caller (the first call's result) is live
+       SubR("stwice", S32, << Par("p", S32) >>, << Return(Bin("+", Call("spost", <<Pp>>), Call("spost", <<Bin("+", Pp, K(10))>>))) >>),
+       SubR("sdeep", S32, << Par("p", S32) >>, << Return(Bin("-", Call("stwice", <<Pp>>), Call("snest", <<Bin("+", Pp, K(1))>>))) >>),
+       SubR("sdeep2", S32, << Par("q", S32), Par("p", S32) >>, << Return(Bin("+", Call("spost", <<Qq>>), Call("stwice", <<Pp>>))) >>) >>
 Subs == IdSubs \o OtherSubs
 
 Prologue == << Decl(S32, "a", Rs), Decl(S32, "x", Rt), Decl(S64, "y", K(0)) >>
@@ -38,7 +43,7 @@ P(id, stmts, tags) == [id |-> id, body |-> Prologue \o stmts \o Epilogue, tags |
 C1(f, e) == Call(f, <<e>>)
 Calls == << C1("searly", A), C1("sloc", A), C1("sloop", CastE(U32, A)), C1("snest", X), Call("smax", <<A, X>>),
             Call("snarrow", <<CastE(S64, A), CastE(U16, X)>>), C1("spost", X), C1("clz32", CastE(U32, X)), C1("fbrev", CastE(U32, A)),
-            C1("clo32", CastE(U32, A)), C1("revbit32", CastE(U32, X)) >>
+            C1("clo32", CastE(U32, A)), C1("revbit32", CastE(U32, X)), C1("stwice", A), C1("sdeep", X), Call("sdeep2", <<A, X>>) >>
 NC == Len(Calls)
 
 IdProgs == [i \in 1..64 |->
